@@ -1606,3 +1606,12 @@ package zygo
 //@ C17 ensures returns-only-without-an-error: err == nil
 //@ func decodeGoToSexpHelper
 //@ C17 assert rejected-record-is-not-used @before call SetHashKeyOrder[0]: err == nil
+
+// C20: what one interpreter declares must not change how a fresh interpreter reads the same
+// text. The process-wide type registry is accepted state (struct names are shared by design),
+// but "field" is the record kind the (field ...) builder makes for a struct declaration, not a
+// type: it is never registered (a registered name is bound as a type in every later
+// interpreter, where it would shadow the builder).
+//@ func MakeHash
+//@ noautoinv
+//@ C20 assert the-field-record-kind-is-not-a-type @before call RegisterUserdef[*]: typename != "field"
